@@ -204,11 +204,45 @@ def gens_of(r):
     return gens
 
 
+def _bp_file_check(r):
+    """the .bp file `write_breakpoints` writes for the last generation: every haplotype it returns is one of the last generation,
+    tract for tract, and the file holds exactly these, in order (label names via the population dictionary)"""
+    import haptools.sim_genotype as sg
+
+    final = [[SD.seg_t(s_) for s_ in h] for h in r["final"]]
+    out = sg.write_breakpoints(r["num_samples"], r["pop_dict"], r["final"], str(_dir / "sim" / "written"), SD._log)
+    chosen = [[SD.seg_t(s_) for s_ in h] for h in out]
+    pool = list(final)
+    for h in chosen:
+        if h not in pool:
+            return f"write_breakpoints returned the haplotype {h}, which is not one of the last generation (or was returned twice)"
+        pool.remove(h)
+    strands, cur = [], None
+    for line in open(_dir / "sim" / "written.bp").read().split("\n"):
+        f = line.split("\t")
+        if len(f) == 1:
+            if f[0]:
+                cur = []
+                strands.append(cur)
+        else:
+            cm = float(f[3])
+            cur.append([f[0], int(f[1]), int(f[2]), int(round(cm)) if abs(cm - round(cm)) < 1e-9 else cm])
+    want = [[[str(r["pop_dict"][t[0]]), t[1], t[2], t[3]] for t in h] for h in chosen]
+    if len(strands) != 2 * r["num_samples"]:
+        return f"the .bp file holds {len(strands)} strands for {r['num_samples']} samples"
+    for k, (a, b) in enumerate(zip(strands, want)):
+        if a != b:
+            return f"strand {k} of the .bp file is {a}; the simulated haplotype it was written from is {b} (a tract was dropped, added or changed on the way to the file)"
+    return None
+
+
 def impl_sim(case):
     r = run_sim(case)
     gens = gens_of(r)
     _last[C.jdump(case)] = gens
-    return {"gens": [dict(children=g["children"], calls=[[c[:6] for c in cs] for cs in g["calls"]]) for g in gens], "all": [g["children"] for g in gens] if _chainable(gens) else None}
+    with C.glue("comparing the written .bp file with the last generation"):
+        bp_file = _bp_file_check(r)
+    return {"bp_file": bp_file, "gens": [dict(children=g["children"], calls=[[c[:6] for c in cs] for cs in g["calls"]]) for g in gens], "all": [g["children"] for g in gens] if _chainable(gens) else None}
 
 
 def _chainable(gens):
@@ -232,13 +266,15 @@ def model_obs_sim(case, resp):
         for smp, tp in zip(r["samples"], g["tapes"] or []):
             calls.append([[tp["pop"], tp["haps"][c[4]], g["chroms"][c[0]], c[1], c[2], float(c[3])] for c in smp["plan"]])
         out.append(dict(children=[s["child"] for s in r["samples"]], calls=calls))
-    return {"gens": out, "all": resp["resps"][len(gens)]["gens"] if _chainable(gens) else None}
+    return {"bp_file": None, "gens": out, "all": resp["resps"][len(gens)]["gens"] if _chainable(gens) else None}
 
 
 def oracle_sim(case, obs):
     if "error" in obs:
         return f"simulate_gt raised {obs} on a valid model"
     gens = _last.get(C.jdump(case))
+    if obs.get("bp_file"):
+        return obs["bp_file"]
     for gi, g in enumerate(gens):
         if gi and g["prev"] != gens[gi - 1]["children"]:
             return f"generation {gi}: the parents offered to _simulate are not the children of generation {gi-1}"
